@@ -379,7 +379,7 @@ fn prefix_depth(nodes: &[DNode], deco: u8) -> usize {
                             let start: i64 = n.attr("start").and_then(|s| s.parse().ok()).unwrap_or(1);
                             let items = kids.iter().filter(|k| k.is("li")).count() as i64;
                             let a = format!("{}. ", start).len();
-                            let b = format!("{}. ", start + items - 1).len();
+                            let b = format!("{}. ", start.saturating_add(items).saturating_sub(1)).len();
                             a.max(b)
                         }
                         "h1" => 2,
